@@ -69,34 +69,43 @@ def make_stubs(c, rec):
 
 
 def make_fourier(E, c, nreq, mode, rec):
-    """Uninitialised Fourier instance with symbolic state."""
-    F = E.time.Fourier.__new__(E.time.Fourier)
+    """Fourier instance built through its REAL __init__ (empymod's
+    check_time is the stub that delivers the symbolic required
+    frequencies)."""
     fr = [Q.var(f"f[{k}]") for k in range(nreq)]
     c.assume(B(fr[0].t > 0))
     for a, b in zip(fr[:-1], fr[1:]):
         c.assume(B(a.t < b.t))
     fmin, fmax = Q.var('fmin'), Q.var('fmax')
     c.assume(B(z3.And(fmin.t > 0, fmin.t < fmax.t)))
-    F._freq_req = np.array(fr, dtype=object).view(symx.SymArray)
-    F._fmin, F._fmax = fmin, fmax
-    F._every_x_freq = None
-    F._input_freq = None
-    F._time = np.array([1., 2.])
-    F._signal = 0
-    F._ft = 'dlf'
-    F._ftarg = {}
-    F.verb = 0
+    rec.freq_req = np.array(fr, dtype=object).view(symx.SymArray)
+    kw = {}
     inp = None
     if mode.startswith('every'):
-        F._every_x_freq = int(mode[5:])
+        kw['every_x_freq'] = int(mode[5:])
     elif mode.startswith('input'):
         n = int(mode[5:])
         inp = [Q.var(f"g[{k}]") for k in range(n)]
         c.assume(B(inp[0].t > 0))
         for a, b in zip(inp[:-1], inp[1:]):
             c.assume(B(a.t < b.t))
-        F._input_freq = np.array(inp, dtype=object).view(symx.SymArray)
+        kw['input_freq'] = np.array(inp, dtype=object).view(symx.SymArray)
+    F = E.time.Fourier(np.array([1., 2.]), fmin, fmax, signal=0, ft='dlf',
+                       ftarg={}, verb=0, **kw)
     return F, fr, fmin, fmax, inp
+
+
+def r_narrow(F, fr, iint, mode):
+    """Lower fmax through its setter to the second-largest in-band required
+    frequency (no new comparisons: the ordering of fr is assumed); returns
+    its index or None."""
+    if mode.startswith('input'):
+        return None
+    inband = [i for i, b in enumerate(iint) if b]
+    if len(inband) < 2:
+        return None
+    F.fmax = fr[inband[-2]]
+    return inband[-2]
 
 
 def case_bookkeeping(case):
@@ -117,8 +126,11 @@ def case_bookkeeping(case):
         temcalls.append(dict(fEM=fEM, freq=freq, time=time, signal=signal,
                              ft=ft, ftarg=ftarg))
         return np.zeros((len(time), 1)), None
-    E.time.empymod = _Namespace(real_em, dict(model=_Namespace(
-        real_em.model, dict(tem=tem))))
+    def check_time(time, signal, ft, ftarg, verb):
+        return time, rec.freq_req, ft, dict(ftarg)
+    E.time.empymod = _Namespace(real_em, dict(
+        model=_Namespace(real_em.model, dict(tem=tem)),
+        utils=_Namespace(real_em.utils, dict(check_time=check_time))))
     grp = f"bookkeeping nreq={nreq} coarse={mode}"
     bad = None
     npaths = 0
@@ -148,9 +160,55 @@ def case_bookkeeping(case):
             sp_calls = list(rec.spline)
             pc_calls = list(rec.pchip)
             t = F.freq2time(fdata, [100.])
+            tem1 = list(temcalls)
+            # ---- history on the same instance -------------------------
+            hist = []
+            snap = [Qc._co(v) for v in out]
+            fdata2 = np.array([Qc.var(f"e[{k}]") for k in range(len(fcomp))],
+                              dtype=object).view(symx.SymArray)
+            out2 = F.interpolate(fdata2)
+            if out2 is out or not all(
+                    symx.qt(a.re).eq(symx.qt(Qc._co(b).re)) and
+                    symx.qt(a.im).eq(symx.qt(Qc._co(b).im))
+                    for a, b in zip(snap, out)):
+                hist.append("a second interpolate() call changes the array "
+                            "returned by the first")
+            # setters: the transform must see the CURRENT settings
+            F.signal = -1
+            temcalls.clear()
+            F.freq2time(fdata, [100.])
+            if len(temcalls) != 1 or temcalls[0]['signal'] != -1:
+                hist.append("freq2time ignores a signal changed through "
+                            "its setter")
+            F.fourier_arguments('dlf', {'pts_per_dec': -1})
+            temcalls.clear()
+            F.freq2time(fdata, [100.])
+            if len(temcalls) != 1 or temcalls[0]['ftarg'] != F.ftarg or \
+                    temcalls[0]['ft'] != F.ft or \
+                    temcalls[0]['freq'] is not F.freq_required:
+                hist.append("freq2time ignores changed Fourier arguments")
+            # narrowing the band: slots above the new fmax are zero again
+            jn = r_narrow(F, fr, iint, mode)
+            if jn is not None:
+                temcalls.clear()
+                fd3 = np.array([Qc.var(f"n[{k}]")
+                                for k in range(len(F.freq_compute))],
+                               dtype=object).view(symx.SymArray)
+                if len(fd3):
+                    try:
+                        out3 = F.interpolate(fd3)
+                        above = list(range(jn+1, len(fr)))
+                        for i in above:
+                            o = Qc._co(out3[i])
+                            if not (o.re.c == 0 and o.im.c == 0):
+                                hist.append("after lowering fmax a slot "
+                                            "above the band is not zero")
+                                break
+                    except ValueError:
+                        pass
             return dict(F=F, fr=fr, fmin=fmin, fmax=fmax, inp=inp, iext=iext,
-                        iint=iint, fcomp=fcomp, fdata=fdata, out=out,
-                        sp=sp_calls, pc=pc_calls, tem=list(temcalls))
+                        iint=iint, fcomp=fcomp, fdata=fdata, out=snap,
+                        sp=sp_calls, pc=pc_calls, tem=tem1, hist=hist)
         for r, pc, tr in c.explore(path, budget_s=900, max_paths=4000):
             npaths += 1
             c.pc = pc
@@ -245,6 +303,8 @@ def case_bookkeeping(case):
                         why = why or ("extrapolation is not anchored at "
                                       "(1e-100 Hz, Re d[0]) plus the "
                                       "computed data")
+            for hmsg in r.get('hist', []):
+                why = why or hmsg
             # transform hand-over
             if len(r['tem']) != 1:
                 why = why or "reference transform not called exactly once"
@@ -255,7 +315,7 @@ def case_bookkeeping(case):
                     symx.qt(Qc._co(a).im).eq(symx.qt(Qc._co(b).im))
                     for a, b in zip(np.asarray(tc['fEM']).ravel(), out)) \
                     if not rec.spline and not rec.pchip else True
-                if tc['freq'] is not r['F']._freq_req or not same:
+                if tc['freq'] is not rec.freq_req or not same:
                     why = why or ("transform does not receive the filled "
                                   "spectrum at the required frequencies")
             if why:
@@ -303,17 +363,32 @@ def replay(cex):
     if not wit:
         return False, 'no witness'
     mode = cex['mode']
-    F = emg3d.time.Fourier.__new__(emg3d.time.Fourier)
-    F._freq_req = np.array(wit['freq'])
-    F._fmin, F._fmax = wit['fmin'], wit['fmax']
-    F._every_x_freq = int(mode[5:]) if mode.startswith('every') else None
-    F._input_freq = np.array(wit['input_freq']) if 'input_freq' in wit \
-        else None
-    F._time = np.array([1., 2.])
-    F._signal = 0
-    F._ft = 'dlf'
-    F._ftarg = {}
-    F.verb = 0
+    import empymod
+    real_ct, real_tem = empymod.utils.check_time, empymod.model.tem
+    temcalls = []
+
+    def check_time(time, signal, ft, ftarg, verb):
+        return time, np.array(wit['freq']), ft, dict(ftarg)
+
+    def tem(fEM, off, freq, time, signal, ft, ftarg):
+        temcalls.append(dict(fEM=np.array(fEM), signal=signal, ft=ft,
+                             ftarg=ftarg, freq=freq))
+        return np.zeros((len(time), 1)), None
+    empymod.utils.check_time, empymod.model.tem = check_time, tem
+    try:
+        return _replay_body(emg3d, cex, wit, mode, temcalls)
+    finally:
+        empymod.utils.check_time, empymod.model.tem = real_ct, real_tem
+
+
+def _replay_body(emg3d, cex, wit, mode, temcalls):
+    kw = {}
+    if mode.startswith('every'):
+        kw['every_x_freq'] = int(mode[5:])
+    if 'input_freq' in wit:
+        kw['input_freq'] = np.array(wit['input_freq'])
+    F = emg3d.time.Fourier(np.array([1., 2.]), wit['fmin'], wit['fmax'],
+                           signal=0, ft='dlf', ftarg={}, verb=0, **kw)
     fr = F.freq_required
     msgs = []
     ext, itp = F.ifreq_extrapolate, F.ifreq_interpolate
@@ -355,6 +430,36 @@ def replay(cex):
                         fr[ext].max() < 1e-3*fc.min():
                     msgs.append("extrapolated real part not at the lowest "
                                 "computed value")
+            # history on the same instance
+            keep = out.copy()
+            fd2 = rng.normal(size=fc.size)+1j*rng.normal(size=fc.size)
+            out2 = F.interpolate(fd2)
+            if out2 is out or not np.array_equal(keep, out):
+                msgs.append("a second interpolate() call changes the array "
+                            "returned by the first")
+            F.signal = -1
+            del temcalls[:]
+            F.freq2time(fdata, [100.])
+            if len(temcalls) != 1 or temcalls[0]['signal'] != -1:
+                msgs.append("freq2time ignores a signal changed through its "
+                            "setter")
+            F.fourier_arguments('dlf', {'pts_per_dec': -1})
+            del temcalls[:]
+            F.freq2time(fdata, [100.])
+            if len(temcalls) != 1 or temcalls[0]['ftarg'] != F.ftarg:
+                msgs.append("freq2time ignores changed Fourier arguments")
+            cand = [f for f in fr if F.fmin <= f < F.fmax]
+            if cand:
+                F.fmax = cand[-1]
+                nfc = F.freq_compute.size
+                if nfc:
+                    try:
+                        o3 = F.interpolate(rng.normal(size=nfc)+0j)
+                        if np.any(o3[fr > F.fmax] != 0):
+                            msgs.append("after lowering fmax a slot above "
+                                        "the band is not zero")
+                    except ValueError:
+                        pass
         except Exception as e:    # noqa
             msgs.append(f"interpolate raised {e!r}"[:150])
     return bool(msgs), (f"real Fourier bookkeeping with freq={wit['freq']}, "
